@@ -6,7 +6,7 @@ import gen
 from props.C05 import KEYS, tie_tree, keyval
 
 RULE = ("per generated (tree, query) every N in 1..M+2 exhaustively (M = rows of the unlimited run), queries filtered or "
-        "not, ordered (keys with ties straddling the cut) or not, bfs/dfs, one or two roots, the first column plain or wrapped in a function whose later argument is the column; (a) CLI output vs the "
+        "not, ordered (keys with ties straddling the cut) or not, grouped or not, bfs/dfs, one to three roots, the first column plain or wrapped in a function whose later argument is the column; (a) CLI output vs the "
         "Lean model, (b) oracle against the unlimited run of the same binary: row count = min(N, M); unordered: "
         "sub-multiset; ordered: key sequence = first N keys of the unlimited sorted run. distinct = (tree, argv); "
         "nontrivial = 1 <= N < M")
@@ -108,6 +108,39 @@ def run(ctx):
                 ctx.case((t, base + " limit 0"))
                 if z["out"] != un["out"]:
                     ctx.oracle_fail("limit 0 differs from no limit", {"argv": [base + " limit 0 into list"]})
+            # grouped queries: LIMIT counts the group rows (D85 fix: it used to be ignored there)
+            gkey = r.choice(["ext", "is_dir", "length(name)", "dir"])
+            gsel = [gkey, r.choice(["count(*)", "sum(size)", "max(size)"])]
+            gord = r.choice(["", "", " order by 1", " order by 1 desc", " order by 2 desc", " order by 2, 1"])
+            gbase = "select %s from .%s group by %s%s" % (", ".join(gsel), r.choice(["", " where size > 0"]), gkey, gord)
+            gun = common.run_cli([gbase + " into list"], cwd=snap.root, scratch=scratch)
+            gfull = rows_of(gun["out"], 2)
+            G = len(gfull)
+            ctx.hist("groups", min(G, 12))
+            for N in range(1, G + 3) if gun["status"] == 0 else []:
+                q = gbase + " limit %d into list" % N
+                ctx.case((t, q))
+                ctx.count("grouped_limit_queries")
+                if N < G:
+                    ctx.distinct.add((t, q, "nt"))
+                m, impl = corr.run_case(ctx, snap, [q], fmt="list", ncols=2)
+                case = {"argv": [q], "unlimited_argv": [gbase + " into list"], "N": N, "M": G, "tree": [n["rel"] for n in snap.nodes][:50]}
+                got = rows_of(impl["out"], 2)
+                if impl["status"] != 0 or len(got) != min(N, G):
+                    ctx.oracle_fail("LIMIT N over a grouped query must return min(N, groups) rows", case, detail={"got": len(got), "status": impl["status"]})
+                    continue
+                pool = list(gfull)
+                for g in got:
+                    if g in pool:
+                        pool.remove(g)
+                    else:
+                        ctx.oracle_fail("limited group rows are not rows of the unlimited grouped result", case)
+                        break
+                if gord:
+                    ki = [int(x.split(" ")[0]) - 1 for x in gord.replace(" order by ", "").split(", ")]
+                    if [[g[i] for i in ki] for g in got] != [[f[i] for i in ki] for f in gfull[:N]]:
+                        ctx.oracle_fail("grouped key sequence differs from the first N keys of the sorted unlimited result", case,
+                                        detail={"got": [list(map(bytes.decode, g)) for g in got][:5], "want": [list(map(bytes.decode, f)) for f in gfull[:N]][:5]})
             common.rm_tree(snap.root)
     finally:
         common.rm_tree(scratch)
